@@ -240,6 +240,9 @@ func (x *Exec) alloc(st *State, a *ssa.Alloc) Val {
 	}
 	if kindOf(et) == KStruct {
 		x.storeObj(st, r, et, zeroVal(et))
+		if n, ok := et.(*types.Named); ok && n.Obj().Pkg() != nil && n.Obj().Pkg().Path() == "math/big" && n.Obj().Name() == "Int" {
+			x.setBigval(st, r, "0") // new(big.Int) is zero
+		}
 	} else {
 		x.writeComps(st, cellKey(et), et, r, zeroVal(et))
 	}
